@@ -57,15 +57,26 @@ func c19Populate(t *rapid.T, tdir string) (mustGo, nearMiss int) {
 	if rapid.IntRange(0, 9).Draw(t, "emptyDir") == 0 {
 		return
 	}
+	// one of the two data directories may be something else than a listable directory (a stray regular file of
+	// that name): the other one is still cleaned
+	blocked := rapid.SampledFrom([]string{"", "", "", "", "", "local", "upload"}).Draw(t, "notADirectory")
+	if blocked != "" {
+		os.WriteFile(filepath.Join(tdir, blocked), []byte("a regular file"), 0666)
+		nearMiss++
+		vstats.Label("dataDirIsAFile:" + blocked)
+	}
 	for _, n := range c19LocalNames {
-		if rapid.IntRange(0, 2).Draw(t, "local:"+n) == 0 {
+		if blocked != "local" && rapid.IntRange(0, 2).Draw(t, "local:"+n) == 0 {
 			write("local/" + n)
 		}
 	}
 	for _, n := range c19UploadNames {
-		if rapid.IntRange(0, 2).Draw(t, "upload:"+n) == 0 {
+		if blocked != "upload" && rapid.IntRange(0, 2).Draw(t, "upload:"+n) == 0 {
 			write("upload/" + n)
 		}
+	}
+	if blocked != "" {
+		return
 	}
 	if rapid.IntRange(0, 3).Draw(t, "dataLikeDirs") == 0 {
 		// non-empty directories whose names look like data files: they cannot be removed (and are neither a
